@@ -135,8 +135,7 @@ def build():
     f.set_sig('R11', 'fn verify_fri_circuit(builder: &mut CircuitBuilderStub, fri_proof_targets: &FriProofTargets, alpha: Target, betas: &[Target], '
                      'index_bits_per_query: &[Vec<Target>], commitments_with_opening_points: &Opaque, log_blowup: usize, permutation_config: Option<Opaque>) '
                      '-> Result<usize, VerificationError>')
-    f.truncate_after('let actual_final_poly_len = fri_proof_targets.final_poly.len(); if actual_final_poly_len != expected_final_poly_len {',
-                     'return Err(VerificationError::InvalidProofShape(errmsg())); } Ok(log_final_poly_len)',
+    f.truncate_after_next_stmt('let actual_final_poly_len = fri_proof_targets.final_poly.len();', 'Ok(log_final_poly_len)',
                      'suffix builds the fold/query constraints; it indexes with the lengths established here')
     f.erase_macro('tracing::debug!')
     f.erase_error_messages('VerificationError::InvalidProofShape')
